@@ -22,7 +22,7 @@
    the c07-cuts stream replays them (and every other cut) on the real mint; they are listed in known_findings.json.
 *)
 From Coq Require Import ZArith List Bool.
-From Verif Require Import Model Sem InvDb InvSwap InvMint InvMelt Corollaries Queries Footprint HRel Global GlobalQuote GlobalValue GlobalErr GlobalQuery GlobalMelt GlobalKeys Cuts CutOrder Conc Races GlobalBalance.
+From Verif Require Import Model Sem InvDb InvSwap InvMint InvMelt Corollaries Queries Footprint HRel Global GlobalQuote GlobalValue GlobalErr GlobalQuery GlobalMelt GlobalKeys Cuts CutOrder Conc Races GlobalBalance GlobalLedger Reconf.
 Import ListNotations.
 Open Scope Z_scope.
 
@@ -33,6 +33,14 @@ Print Assumptions C07_hrun_inv.
 Theorem C07_hrun_ext : forall (cfg : config) (h : list hitem) (w : world), wext w (hrun cfg w h).
 Proof. exact @hrun_ext. Qed.
 Print Assumptions C07_hrun_ext.
+
+Theorem C07_reconf_inv : forall (segs : list (config * list hitem)) (w : world), WInv w -> WInv (hrun_cfgs w segs).
+Proof. exact @reconf_inv. Qed.
+Print Assumptions C07_reconf_inv.
+
+Theorem C07_reconf_ext : forall (segs : list (config * list hitem)) (w : world), wext w (hrun_cfgs w segs).
+Proof. exact @reconf_ext. Qed.
+Print Assumptions C07_reconf_ext.
 
 Theorem C07_only_op : forall (cfg : config) (mem_ks : list ksrow) (active : Z) (o : op),
        only (fp_op o) (op_prog cfg mem_ks active o).
